@@ -57,9 +57,12 @@ def run(cfg, R):
         din, nval, neq, in1d = cfg["din"], cfg["nval"], cfg["neq"], cfg["in1d"]
         tin = (jnp.arange(n * din, dtype=jnp.float32).reshape(n, din) if not in1d else jnp.arange(n, dtype=jnp.float32)) * 0.5 + 0.25
         tval = jnp.arange(n * nval, dtype=jnp.float32).reshape(n, nval) + 100.0
-        teq = {f"p{k}": (jnp.arange(n, dtype=jnp.float32) + 1000.0 * (k + 1)) if k == 0 else (jnp.arange(n, dtype=jnp.float32).reshape(n, 1) + 1000.0 * (k + 1)) for k in range(neq)}
+        eqnames = ["nu", "alpha"][:neq]                      # insertion order is not alphabetical
+        teq = [(jnp.arange(n, dtype=jnp.float32) + 1000.0 * (k + 1)) if k == 0 else (jnp.arange(n, dtype=jnp.float32).reshape(n, 1) + 1000.0 * (k + 1)) for k in range(neq)]
         def f(key, tin, tval, teq):
-            g = DG.DataGeneratorObservations(key, b, tin, tval, dict(teq))
+            d_ = {}
+            for nm, tb in zip(eqnames, teq): d_[nm] = tb       # the user's dict, built in the user's order
+            g = DG.DataGeneratorObservations(key, b, tin, tval, d_)
             outs = []
             for _ in range(ncalls):
                 g, bt = g.get_batch(); outs.append(bt)
@@ -69,7 +72,8 @@ def run(cfg, R):
         tr = R.trace(name, f, (key, tin, tval, teq), key="obs:raises", use_stubs=True, missing="example")
         if tr is None: return
         def goals(A, O):
-            key_, tin_, tval_, teq_ = A
+            key_, tin_, tval_, teq_l = A
+            teq_ = dict(zip(eqnames, teq_l))
             tin2 = np.asarray(tin_, dtype=object).reshape(n, -1); tv2 = np.asarray(tval_, dtype=object).reshape(n, -1)
             cds = [Codes(tin2), Codes(tv2)] + [Codes(np.asarray(teq_[k], dtype=object).reshape(n, 1)) for k in sorted(teq_)]
             G = []
@@ -82,7 +86,7 @@ def run(cfg, R):
                 G.append((f"batch {c}: rows are distinct table rows", tm.conj([bnot(eq(rows[i], rows[j])) for i in range(b) for j in range(i + 1, b)])))
             return G
         def twins(A, O):
-            key_, tin_, tval_, teq_ = A
+            key_, tin_, tval_, teq_l = A
             cdv = Codes(np.asarray(tval_, dtype=object).reshape(n, -1))
             return [("batch 0 is always the first b table rows in order", tm.conj([eq(cdv.row_of(O[0]["val"][j, 0]), const(j, "Int")) for j in range(b)]))]
         R.check(name, tr, goals, twin_fn=twins, validate=False, key_fn=lambda p, g: "obs:" + g.split(":")[-1][:50])
